@@ -139,9 +139,6 @@ func (f *fakeEngine) VirtualizationCreate(ctx context.Context, opts *enginetypes
 		r = &enginetypes.VirtualizationCreated{ID: id, Name: opts.Name, Labels: map[string]string{}}
 		return nil
 	})
-	if err == nil {
-		f.es.g.Emit(Event{"ev": "EngineCreated", "id": r.ID, "node": f.node, "op": opOf(ctx)})
-	}
 	return
 }
 
